@@ -105,6 +105,51 @@ def advance_flow(ask0: bool, ask1: bool, stop: int, ci: int) -> bool:
     return out[1] == {"errorcode": 0 if result == "success" else 1}
 
 
+@obligation(tier="quick", parts=2, timeout=300, part_names=["advanceBlockchain", "updateAncestorBlock"],
+            bounds="one block (advance: with one brother), 80-byte chunks; the ANSWER to exchange k (symbolic, 0..29) is lost after the device "
+                   "has taken the message (time-out): the client is told so (device-error code) and the device never holds anything but "
+                   "a prefix of the client's headers - nothing is delivered twice; no fault (k beyond the flow): success",
+            examples=[(0, dict(k=3)), (1, dict(k=2)), (0, dict(k=29)), (0, dict(k=7))])
+def lost_answer(k: int) -> bool:
+    """
+    pre: 0 <= k <= 29
+    post: _
+    """
+    from sim.base import raise_fault, FAULT_TIMEOUT
+    adv = part() == 0
+    if adv:
+        req = {"command": "advanceBlockchain", "version": 5, "blocks": [BLOCK_A.hex()], "brothers": [[BRO_1.hex()]]}
+    else:
+        req = {"command": "updateAncestorBlock", "version": 5, "blocks": [BLOCK_A.hex()]}
+    d = SimDevice()
+    d.chunk = 80
+    proto, dongle, world = make_stack(d)
+    fired = {"n": 0}
+
+    def after(i, apdu):
+        if i == k:
+            fired["n"] += 1
+            raise_fault(FAULT_TIMEOUT)
+    world.after_hook = after
+    out = handle(proto, req)
+    if out[0] != "reply":
+        return False
+    b = d.block_op
+    held = []
+    if b is not None:
+        for blk in b["blocks"]:
+            # (an ancestor update delivers the header without its merge-mining proof and coinbase: the block-hash preimage)
+            held.append((blk["data"], list(BLOCK_A) if adv else list(BLOCK_A_INFO["hash_preimage"])))
+            for bro in blk["brothers"]:
+                held.append((bro["data"], list(BRO_1)))
+    for got, want in held:
+        if got != want[:len(got)]:
+            return False                 # something else than a prefix of the client's header (e.g. a slice delivered twice)
+    if fired["n"] == 0:
+        return out[1].get("errorcode") == 0 and not world.violations
+    return out[1].get("errorcode") == -905
+
+
 UPD_LISTS = [[0], [0, 1], [2, 0], [1, 3, 2]]
 UPD_BLOCKS = [(BLOCK_A, BLOCK_A_INFO), (BLOCK_B, BLOCK_B_INFO), (BLOCK_17, BLOCK_17_INFO), (BLOCK_18, BLOCK_18_INFO)]
 
